@@ -123,9 +123,34 @@ def make_plan(run_seed: int, profile: Dict[str, Any]) -> Dict[str, Any]:
         },
         "ops": ops,
         "faults": [],
+        "fault_bias": profile.get("fault_bias", {}),
         "caps": {"op_work": profile.get("op_work", 1_500_000), "total_work": profile.get("total_work", 12_000_000)},
     }
+    if profile.get("api_ops") and rng.random() < profile.get("derive_prob", 0.4):
+        add_derived_solver(plan, rng)
     return plan
+
+
+def add_derived_solver(plan: Dict[str, Any], rng: random.Random) -> None:
+    """A further solver object obtained from an existing one by the public
+    `copy_without_queue(formula=...)`: same grammar and settings, another constraint.
+    The family shares whatever state ISLa lets copies share; inputs accepted by one
+    member are afterwards presented to the other (both directions)."""
+    scenarios = plan["scenarios"]
+    src = rng.randrange(len(scenarios))
+    base = scenarios[src]
+    formula = gen_formula(base["grammar"], rng, base["family"])
+    new_idx = len(scenarios)
+    scenarios.append(dict(base, formula=formula, formula_text=print_formula(formula), derived_from=src))
+    ops = plan["ops"]
+    first = next((k for k, op in enumerate(ops) if op[0] == "solve" and op[1] == src), len(ops) - 1)
+    at = rng.randint(first + 1, len(ops))
+    tail = [["derive", new_idx, src]]
+    for _ in range(rng.randint(3, 7)):
+        who = rng.choice([src, new_idx, new_idx])
+        kind = rng.choice(["check", "check", "parse", "parse", "check_mut", "parse_mut", "solve", "repair"])
+        tail.append([kind, who] if kind == "solve" else [kind, who, rng.randrange(1 << 30)])
+    plan["ops"] = ops[:at] + tail + ops[at:]
 
 
 def add_api_ops(ops, n_solvers, rng):
@@ -142,7 +167,8 @@ def place_faults(plan: Dict[str, Any], record: Dict[str, Any]) -> Optional[Dict[
     """Second phase: the same plan with 1-3 faults placed at seam indices observed in
     the fault-free execution (so that faults land inside operations)."""
     rng = random.Random(plan["run_seed"] * 7919 + 13)
-    if rng.random() < 0.35:
+    bias = plan.get("fault_bias") or {}
+    if rng.random() < bias.get("fault_free_prob", 0.35):
         return None  # this run seed stays fault-free
     counts = record.get("seam_counts", {})
     z3n = counts.get("z3_calls", 0)
@@ -150,11 +176,14 @@ def place_faults(plan: Dict[str, Any], record: Dict[str, Any]) -> Optional[Dict[
     kinds = []
     sites = {k: v for k, v in (record.get("z3_sites") or {}).items() if v > 0}
     if z3n:
-        kinds += ["z3_outage", "z3_outage", "z3_starved", "z3_unknown"]
+        kinds += ["z3_outage", "z3_outage", "z3_starved", "z3_unknown", "z3_slow", "z3_slow"]
         if sites:
             kinds += ["z3_site_outage", "z3_site_outage"]
     if clk:
         kinds += ["clk_jump_fwd", "clk_jump_fwd", "clk_jump_back", "clk_slow_window"]
+    for k, w in sorted(bias.items()):
+        if k in kinds:
+            kinds += [k] * int(w)
     if not kinds:
         return None
     faults = []
@@ -170,6 +199,8 @@ def place_faults(plan: Dict[str, Any], record: Dict[str, Any]) -> Optional[Dict[
             faults.append({"kind": k, "at_call": rng.randrange(z3n), "len": rng.choice([1, 5, 25, 100])})
         elif k == "z3_unknown":
             faults.append({"kind": k, "at_call": rng.randrange(z3n)})
+        elif k == "z3_slow":
+            faults.append({"kind": k, "at_call": rng.randrange(z3n), "delta": rng.choice([rng.choice(timeouts) + 1, rng.choice(timeouts) + 1, 2.5, 100.0, 1e6])})
         elif k == "clk_jump_fwd":
             faults.append({"kind": k, "at_read": rng.randrange(clk + 1), "delta": rng.choice([rng.choice(timeouts) + 1, 2.5, 100.0, 1e7])})
         elif k == "clk_jump_back":
@@ -456,6 +487,12 @@ def _run(plan, world: World, monitors: Monitors, record):
     recogs: List[Recognizer] = []
     hist: List[Dict[str, Any]] = []
     for i, sc in enumerate(scenarios):
+        if sc.get("derived_from") is not None:
+            # created later by a "derive" op; shares the list of known inputs with its source
+            solvers.append(None)
+            recogs.append(recogs[sc["derived_from"]])
+            hist.append({"terminal": None, "dead": False, "solutions": [], "trees": hist[sc["derived_from"]]["trees"]})
+            continue
         world.work.extend(world.op_work * 2)
         try:
             solvers.append(build_solver(world, sc, monitors))
@@ -485,6 +522,26 @@ def _run(plan, world: World, monitors: Monitors, record):
             record["outcomes"].append(["heal"])
             continue
         i = op[1]
+        if kind == "derive":
+            from returns.maybe import Some
+
+            src_solver = solvers[op[2]]
+            if src_solver is None:
+                record["outcomes"].append(["derive", i, "skipped"])
+                continue
+            world.work.extend(world.op_work * 2)
+            try:
+                solvers[i] = src_solver.copy_without_queue(formula=Some(scenarios[i]["formula_text"]))
+                record["outcomes"].append(["derive", i, "ok"])
+                stats["derived_solvers"] = stats.get("derived_solvers", 0) + 1
+            except SimBudgetExceeded:
+                record["inconclusive"].append(f"construct_budget:{i}")
+                record["outcomes"].append(["derive", i, "budget"])
+            except Exception as exc:
+                sig = exception_signature(exc)
+                record["inconclusive"].append(f"construct_exc:{sig['type']}:{sig['site']}:{sig['message']}")
+                record["outcomes"].append(["derive", i, "exc", sig["type"], sig["site"]])
+            continue
         solver = solvers[i]
         h = hist[i]
         sc = scenarios[i]
